@@ -75,7 +75,7 @@ func (c *Ctx) ruleValidateWireType(rule string) {
 		for _, s := range sw.Body.List {
 			for _, st := range s.(*ast.CaseClause).Body {
 				if as, ok := st.(*ast.AssignStmt); ok && len(as.Rhs) == 1 {
-					if be, ok := unparen(as.Rhs[0]).(*ast.BinaryExpr); ok && be.Op == token.EQL && strings.Contains(exprStr(be.X), "wtyp") {
+					if be, ok := unparen(as.Rhs[0]).(*ast.BinaryExpr); ok && be.Op == token.EQL && (strings.Contains(exprStr(be.X), "wtyp") || strings.Contains(exprStr(be.Y), "wtyp")) {
 						presence = sw
 					}
 				}
@@ -93,8 +93,12 @@ func (c *Ctx) ruleValidateWireType(rule string) {
 		var accepted []string
 		for _, st := range cc.Body {
 			walk(st, func(n ast.Node) bool {
-				if be, ok := n.(*ast.BinaryExpr); ok && be.Op == token.EQL && strings.Contains(exprStr(be.X), "wtyp") {
-					x, _ := labelName(info, be.Y)
+				if be, ok := n.(*ast.BinaryExpr); ok && be.Op == token.EQL && (strings.Contains(exprStr(be.X), "wtyp") || strings.Contains(exprStr(be.Y), "wtyp")) {
+					c := be.Y
+					if strings.Contains(exprStr(be.Y), "wtyp") {
+						c = be.X
+					}
+					x, _ := labelName(info, c)
 					accepted = append(accepted, x)
 				}
 				return true
